@@ -185,6 +185,8 @@ class Alg:
             i = self.canon(t[2])
             if v[0] == "V":
                 r = self.v_at(v, i)
+            elif v[0] == "array" and i[0] == "int" and 0 <= i[1] < len(v[1]):
+                r = v[1][i[1]]
             else:
                 r = ("at", v, i)
         elif k == "field":
@@ -402,9 +404,8 @@ class Alg:
                     d.pop(w)
                     K[tuple(sorted(d.items(), key=lambda kv: key(kv[0])))] = co
                 if okw:
-                    atom = ("wsum", self.poly_term(self.poly(info.init[w[2]])), self.poly_term(K),
-                            ("V", self.poly_term(G), n))
-                    return self.poly_term(self.poly(info.init[c]).add(Poly.atom(atom)))
+                    ws = self.wsum_poly(self.poly_term(self.poly(info.init[w[2]])), self.poly_term(K), G, n)
+                    return self.poly_term(self.poly(info.init[c]).add(ws))
         if lin == 1 and not others:
             # acc' = acc + g(elem): plain sum
             rest = P.add(Poly.atom(lv_self), -1)
@@ -431,6 +432,17 @@ class Alg:
         ren = {("lv", uid, x): ("LV", k) for k, x in enumerate(order)}
         desc = tuple((self.canon(info.init[x]), self.canon(self.eng.subst(steps[x], ren))) for x in order)
         return ("fold", tuple(self.leaf(l) for l in (__import__("zkverif.models", fromlist=["x"]).leaves_of(info.src) if info.src else ())), desc, n)
+
+    def wsum_poly(self, w0, k, G, n):
+        """sum_j w0 * k^j * G(elem_j), linear in G: loop-invariant factors are pulled out so that
+        wsum(c*d + cs) = c*wsum(d) + wsum(cs)."""
+        acc = Poly()
+        for m, co in G.items():
+            inner = tuple((a, p) for a, p in m if self.has_EI(a))
+            outer = tuple((a, p) for a, p in m if not self.has_EI(a))
+            atom = ("wsum", w0, k, ("V", self.poly_term(Poly({inner: 1})), n))
+            acc = acc.add(Poly({mono_mul(outer, ((atom, 1),)): co}))
+        return acc
 
     # ------------------------------------------------------------ booleans
     def nb(self, node):
@@ -596,3 +608,43 @@ def value_preserving(f, t):
     if fu and not tu:
         return _W[t] > _W[f]
     return False
+
+
+def conj_normal_form(alg, node):
+    """Canonical form of a conjunction: positive polynomial equalities are replaced by the reduced
+    row echelon form of their row space over the monomial basis (so `a=b & b=c` == `a=c & a=b`);
+    every other literal is kept.  Returns None when `node` is not a pure conjunction."""
+    from fractions import Fraction
+    lits = alg.bdd.as_conjunction(node)
+    if lits is None:
+        return None
+    rows = []
+    others = []
+    for a, pol in lits:
+        if pol and a[0] == "Z":
+            rows.append({m: Fraction(c) for m, c in a[1]})
+        else:
+            others.append((a, pol))
+    monos = sorted({m for r in rows for m in r}, key=key)
+    mat = [[r.get(m, Fraction(0)) for m in monos] for r in rows]
+    rank = 0
+    for col in range(len(monos)):
+        piv = None
+        for i in range(rank, len(mat)):
+            if mat[i][col] != 0:
+                piv = i
+                break
+        if piv is None:
+            continue
+        mat[rank], mat[piv] = mat[piv], mat[rank]
+        pv = mat[rank][col]
+        mat[rank] = [x / pv for x in mat[rank]]
+        for i in range(len(mat)):
+            if i != rank and mat[i][col] != 0:
+                f = mat[i][col]
+                mat[i] = [x - f * y for x, y in zip(mat[i], mat[rank])]
+        rank += 1
+    canon_rows = []
+    for r in mat[:rank]:
+        canon_rows.append(tuple((m, x) for m, x in zip(monos, r) if x != 0))
+    return (frozenset(canon_rows), frozenset(others))
